@@ -1,2 +1,103 @@
-(* C24 — placeholder while the harness is brought up; replaced below. *)
-From Mv Require Import Model.Mux.
+(* C25 — Multiplexer operations never hang and a slow stream never blocks
+   others.  Property theorems only (safety forms); proofs in Proof/MuxLive.v
+   on top of the invariant I_mux.
+
+   PARTIAL: real-time liveness ("returns ONCE the deadline passes") is not a
+   safety property of the untimed model; it is validated on every run by the
+   watchdog harness (check_C25: every call returns within its deadline plus
+   slack), not proved.  What is proved:
+   - the shared reader is never blocked by any stream's consumer and never
+     meets ErrBufferFull (from the window-conservation clause of I_mux);
+   - every blocking point's select, transcribed into Model/MuxWait.v, waits
+     for the events C25 names (deadline expiry, local close, multiplexer
+     close, remote close), so the only ways to stay blocked are the ones the
+     property allows;
+   - an open delivered to a full accept backlog is rejected, leaving no
+     pending entry, and the backlog never exceeds its capacity;
+   - a held read/write token can always be handed back. *)
+From Coq Require Import List NArith Bool.
+From Coq Require Import Strings.Byte.
+From Mv Require Import Model.Mux Model.MuxWait Model.MuxMon Proof.MuxInv Proof.Mux Proof.MuxLive.
+Import ListNotations.
+Local Open Scope N_scope.
+
+Definition reachable (ca cb : config) (st : state) : Prop :=
+  cW ca <= maxU64 /\ cW cb <= maxU64 /\
+  exists sched, run all_fixed sched (init ca cb) = Running st.
+
+Lemma reachable_inv ca cb st : reachable ca cb st -> Inv st.
+Proof. intros (Ha & Hb & sched & H). exact (mux_reachable_inv ca cb sched st Ha Hb H). Qed.
+
+(* In every reachable state, whatever any stream's reader is doing (stalled,
+   buffer full, closed), the reader goroutine of either side can take the next
+   frame off its wire and the step succeeds. *)
+Theorem c25_reader_never_blocks :
+  forall ca cb st (s : side), reachable ca cb st -> wire_to st s <> [] ->
+    exists st', step all_fixed st (ADeliver s) = Some (Running st').
+Proof. intros ca cb st s H. exact (reader_progress st s (reachable_inv ca cb st H)). Qed.
+
+(* ring.ErrBufferFull never surfaces: a data frame at the head of the wire
+   always fits the receive buffer of its stream. *)
+Theorem c25_no_buffer_full :
+  forall ca cb st (s : side) (i : N) (d : list byte) (t : list msg) (x : stream),
+    reachable ca cb st -> wire_to st s = MData i d :: t -> get i (streams (ep st s)) = Some x ->
+    len (rbuf x) + len d <= cW (cfg (ep st s)).
+Proof. intros ca cb st s i d t x H. exact (buffer_never_full st s i d t x (reachable_inv ca cb st H)). Qed.
+
+(* every blocking point waits for every event C25 requires of it *)
+Theorem c25_wait_sets :
+  forall (p : point) (k : wake), In k (required p) -> In k (waits p).
+Proof.
+  intros p k.
+  exact (covers_spec p k (proj1 (forallb_forall covers all_points) wait_sets_cover p (all_points_complete p))).
+Qed.
+
+(* backlog: an open that finds the backlog full is rejected and leaves no
+   pending entry; and the backlog never exceeds its capacity *)
+Theorem c25_backlog_reject :
+  forall (s : side) (e : endpoint) (i w : N),
+    N.eqb i 0 = false -> mine s i = false -> largestIn e < i ->
+    length (backlog e) = cBacklog (cfg e) ->
+    exists e', deliver s e (MOpen i w) = DOk e' /\
+               backlog e' = backlog e /\ streams e' = streams e /\ get i (cls e') = Some tt.
+Proof. exact open_rejected. Qed.
+
+Theorem c25_backlog_bounded :
+  forall (fx : fixes) ca cb sched st (s : side),
+    run fx sched (init ca cb) = Running st ->
+    (length (backlog (ep st s)) <= cBacklog (cfg (ep st s)))%nat.
+Proof.
+  intros fx ca cb sched st s H.
+  exact (backlog_run fx sched (init ca cb) st (backlog_init ca cb) H s).
+Qed.
+
+(* tokens: whoever holds a read or write token can give it back *)
+Theorem c25_token :
+  forall st (s : side) (i : N) (x : stream), get i (streams (ep st s)) = Some x ->
+    (forall r, wst x = WHeld r -> exists st', step all_fixed st (AWEnd s i) = Some (Running st')) /\
+    (forall k, rst x = RHeld k -> exists st', step all_fixed st (AREnd s i) = Some (Running st')) /\
+    (forall c, rst x = RPost c -> exists st', step all_fixed st (ARPost s i) = Some (Running st')).
+Proof. exact token_returnable. Qed.
+
+(* the watchdog checker says what it claims *)
+Theorem c25_checker_sound :
+  forall c : tcase, check_C25 c = true ->
+    (forall el lim, In (el, lim) (t_calls c) -> el <= lim) /\
+    t_errA c <> IProto 13 /\ t_errB c <> IProto 13 /\
+    (forall o b r p, t_backlog c = Some (o, b, r, p) -> p <= b /\ o <= r + p).
+Proof. exact check_C25_sound. Qed.
+
+(* Non-vacuity: a reachable state with a stalled, full stream 1 and a frame
+   for stream 3 behind its data on the same wire. *)
+Example c25_nontrivial :
+  exists st, reachable {| cW := 2; cBacklog := 2 |} {| cW := 2; cBacklog := 2 |} st
+             /\ length (wire_to st SB) = 2%nat.
+Proof. exact live_example. Qed.
+
+Print Assumptions c25_reader_never_blocks.
+Print Assumptions c25_no_buffer_full.
+Print Assumptions c25_wait_sets.
+Print Assumptions c25_backlog_reject.
+Print Assumptions c25_backlog_bounded.
+Print Assumptions c25_token.
+Print Assumptions c25_checker_sound.
